@@ -10,6 +10,7 @@ CONSTANTS
   MaxFaults = 1
   Victims = {r1}
   UniqueIds = FALSE
+  CleanCut = FALSE
 INIT Init
 NEXT Next
 CHECK_DEADLOCK FALSE
